@@ -187,7 +187,7 @@ class Check(BaseCheck):
                    'mapping\'s content at delivery time',
                    'a once-listener served by a nested emit while still in an outer snapshot is left unspecified by the statement; '
                    'histories reaching that state are judged only up to that operation',
-                   'callbacks that raise, falsy callables and callbacks carrying an attribute "_" are outside the statement')
+                   'callbacks that raise and callbacks carrying an attribute "_" are outside the statement')
 
     def plan(self, tier, seed):
         n, sh = (7000, 16) if tier == 'quick' else (150000, 32)
